@@ -5,9 +5,10 @@ export GOFLAGS=-mod=mod GOPROXY=off GOSUMDB=off GOTOOLCHAIN=local GOWORK=off
 [ -x bin/pv ] || ./setup.sh >/dev/null 2>&1 || { echo "VIOLATION property=$1 replay=/dev/null rule=setup kind=undecided :: cannot build the checker"; exit 2; }
 tier=${2:-quick}
 if [ "$tier" = thorough ]; then
-  # same rules under three configurations (amd64/VTA, 386/VTA, amd64/CHA), then checker sensitivity on the mutant corpus
+  # same rules under two build configurations (amd64, 386), then checker validation both ways: sensitivity on the mutant
+  # corpus and on the independent seeded changes, silence on the behaviour-preserving controls
   bin/pv check -repo /repo -verif "$(pwd)" -tier thorough "$1"; rc=$?
-  python3 tools/selftest.py -q "$1"
+  python3 tools/selftest.py -q --full "$1"
   [ -f out/crossref.txt ] || tools/crossref.sh >/dev/null 2>&1
   exit $rc
 fi
